@@ -276,27 +276,48 @@ def rule_s(F):
             # keys that compare with nothing apart (is_nan on both keys, compared as bools).
             fallbacks = [y for y in hir_walk(clo["body"]) if y.get("k") == "mcall" and y["name"] in ("unwrap_or", "unwrap_or_else", "unwrap_or_default", "unwrap", "expect")]
             fb_ok = False
+            has_rank = False
             for y in fallbacks:
                 if y["name"] == "unwrap_or_else" and y["args"]:
                     inner = [z for z in hir_walk(y["args"][0]) if z.get("k") in ("mcall", "call") and (z.get("name") == "is_nan" or
                              any(n.endswith("f64::is_nan") or n.endswith("::is_nan") for n in hir_callee(z)))]
-                    # is_nan may live in a local closure that the fallback calls
-                    local_fns = [z for z in hir_walk(y["args"][0]) if z.get("k") == "call" and hir_local_id(hu.strip_all(z["f"])) is not None]
-                    for lf in local_fns:
-                        lid = hir_local_id(hu.strip_all(lf["f"]))
-                        for init in hu.let_inits(f).get(lid, []):
-                            inner += [z for z in hir_walk(init) if z.get("k") == "mcall" and z.get("name") == "is_nan"]
+                    # is_nan may live in a local closure that the fallback calls (directly or through another local closure)
+                    seen_l = set()
+                    work = [y["args"][0]]
+                    while work:
+                        e_ = work.pop()
+                        inner += [z for z in hir_walk(e_) if z.get("k") == "mcall" and z.get("name") == "is_nan"]
+                        for z in hir_walk(e_):
+                            if z.get("k") == "call" and z.get("f") is not None:
+                                lid = hir_local_id(hu.strip_all(z["f"]))
+                                if lid is not None and lid not in seen_l:
+                                    seen_l.add(lid)
+                                    work += hu.let_inits(f).get(lid, [])
                     if inner:
                         fb_ok = True
+                    # ... and the other open pairs (nil against an object, different objects of one length) by the numeric rule
+                    seen_l2 = set()
+                    work2 = [y["args"][0]]
+                    while work2:
+                        e_ = work2.pop()
+                        for z in hir_walk(e_):
+                            if z.get("k") in ("call", "mcall") and (any(n_.endswith("TryFrom::try_from") or n_.endswith("::try_from") or n_.endswith("TryInto::try_into")
+                                                                         for n_ in hir_callee(z)) or z.get("name") == "len"):
+                                has_rank = True
+                            if z.get("k") == "call" and z.get("f") is not None:
+                                lid = hir_local_id(hu.strip_all(z["f"]))
+                                if lid is not None and lid not in seen_l2:
+                                    seen_l2.add(lid)
+                                    work2 += hu.let_inits(f).get(lid, [])
             if fallbacks and not fb_ok:
                 probs.append("incomparable keys are all treated alike (%s): with a NaN key the comparator is not a total order (NaN equals "
                              "every number, the numbers differ), and the standard sort panics when it detects that - the keys that compare "
                              "with nothing have to be ordered apart (e.g. last)" % fallbacks[0]["name"])
             for y in cmps:
                 names = hir_callee(y)
-                if y.get("k") == "mcall" and (hu.strip_all(y["recv"]) or {}).get("ty") == "bool" and \
+                if y.get("k") == "mcall" and "value::Value" not in ((hu.strip_all(y["recv"]) or {}).get("ty") or "") and \
                         any(any(w is y for w in hir_walk(fbk["args"][0])) for fbk in fallbacks if fbk["name"] == "unwrap_or_else" and fbk["args"]):
-                    continue   # the bool comparison inside the fallback
+                    continue   # the comparison of the derived ranks inside the fallback
                 if not any(n == "<value::Value as std::cmp::PartialOrd>::partial_cmp" for n in names):
                     probs.append("keys are compared with %s instead of Value's own ordering (the one `<` uses): integers beyond 2^53, "
                                  "strings and tables are ordered differently from the comparison cards" % names[-1])
@@ -316,6 +337,15 @@ def rule_s(F):
             res.append(bad("C09.S", key, f.loc(x["ln"]), "sorted/sorted_by_key: " + "; ".join(probs)))
         else:
             res.append(ok("C09.S", key, f.loc(x["ln"]), "stable sort_by with Value::partial_cmp(a, b) on the keys"))
+        if x["name"] == "sort_by" and fallbacks and fb_ok:
+            key2 = "C09/S/native_sorted/total-order-fallback"
+            if has_rank:
+                res.append(ok("C09.S", key2, f.loc(x["ln"]), "open pairs are ordered by the keys' numeric rank, NaN apart"))
+            else:
+                res.append(bad("C09.S", key2, f.loc(x["ln"]), "sorted/sorted_by_key: the fallback for keys that partial_cmp does not order only tells NaN apart; "
+                               "nil against an object and different objects of one length still count as equal to each other while they are "
+                               "ordered against numbers (\"ccc\" > 2 > nil, nil 'equal' to \"ccc\"): not transitive, tables of mixed kinds come out "
+                               "unsorted and the standard sort may panic"))
     return res
 
 
